@@ -48,6 +48,67 @@ reg('C18', 'AIO+CHOICE',
     'asyncio FIFO ready-queue discipline is kept (specified); held messages measured externally (pulls issued - messages returned); fake server '
     'keeps a delivered-but-unconsumed message on cancellation like asyncio.Queue', 'DESIGN.md section 5 C18')
 
+reg('C02', 'SEQ+ENUM',
+    'bounded-exhaustive enumeration of registration histories (routes/suffixes/sinks/static routes, both orders) x requests, lockstep with a list model of the history',
+    'Every registration history within the bound (quick 3 116, thorough 50 043 histories over nested alphabets incl. all 32 method subsets, suffix resource '
+    'kinds, 6 sink prefixes, static routes, rejected registrations) is built as a real WSGI and ASGI app under both sink_before_static_route values and '
+    'queried with 7 methods x 13 boundary paths, after the last and after every registration; status, which responder/sink/file ran with which kwargs and '
+    'the Allow multiset are compared with a dispatch table computed from the history.',
+    'URI-template matching itself is C01; custom routers and set_default_responders overrides are not generated', 'DESIGN.md section 5 C02')
+
+reg('C05', 'ENUM+CHOICE',
+    'full product enumeration of the response matrix + deviation-bounded DFS over fault points (stream raises, send fails, server abandons), independent PEP 3333 / ASGI monitors and a length/precedence model',
+    'Every cell of status form (26) x method x all 16 body-source subsets x stream kind x preset Content-Length/Content-Type x cookies x response class is '
+    'served by a real app on both stacks; the drivers\' protocol monitors, the exact body by the documented precedence, Content-Length, Content-Type '
+    'presence, Set-Cookie lines and close() counts are checked; fault points (stream raises at chunk k, send fails at call k, server abandons after k chunks, '
+    'SSE client disconnect) are Chooser deviations explored to bound 1 (thorough 2).',
+    'HTTP/2 rules and trailers out of scope; attribute assignment order inside the responder is fixed', 'DESIGN.md section 5 C05')
+
+reg('C08', 'ENUM',
+    'bounded-exhaustive enumeration of all query strings up to length L over an 11-symbol alphabet (+ token sequences) x option combinations, against an independent form-urlencoded reader; getter x value x occurrence tables; to_query_str round trip',
+    'All strings <=5 (thorough <=7) over {& = , + % 4 1 a G NUL e-acute} and all token sequences over 14 escape tokens are parsed by '
+    'falcon.uri.parse_query_string under the 4 option combinations and compared with a byte-level reference; the ASCII sub-space also runs through real WSGI '
+    'and ASGI requests (params, has_param, get_param, get_param_as_list); 131 values x 9-11 occurrence patterns x 224 getter/kwargs calls are compared with '
+    'stdlib conversions (value or 400, store/default/required/min/max exact); 23 260 dicts round-trip through to_query_str.',
+    'the compiled cyutil twin is not covered (stale artifact, cannot be rebuilt)', 'DESIGN.md section 5 C08')
+
+reg('C09', 'ENUM',
+    'bounded-exhaustive enumeration of ABNF derivations per header family and all their edit-distance-1 mutants, against independent RFC-level parsers with a VALID=>exact / INVALID=>value-or-4xx contract',
+    'Nine header families (Content-Length, Range, HTTP-date, entity-tags, Cookie, Forwarded, X-Forwarded-*, Host/URL, Accept) are derived to a bounded depth '
+    'with all single-character mutants (quick 36 656, thorough 702 129 values); every accessor is read twice on one Request and once on a fresh one on WSGI '
+    'and ASGI, URL compositions are checked against their parts, header lookup casings and the response date/etag round trip are enumerated; any exception '
+    'other than a 4xx HTTPError is a violation.',
+    'RFC readings chosen where the RFC leaves representation open are listed in the harness docstring', 'DESIGN.md section 5 C09')
+
+reg('C10', 'ENUM',
+    'bounded-exhaustive enumeration of all strings up to length L over a 16-symbol alphabet (+ systematic inflations crossing the 8-escape switch, token sequences, authority forms), against a byte-level reference codec',
+    'All strings <=5 (thorough <=6) over {% + 4 1 A f G / ? ~ - SP NUL, 2/3/4-byte code points}, their 9-fold repetitions, prefix/suffix inflations, token '
+    'sequences, 3 762 authorities and all quoted-string candidates are run through decode/encode/encode_value/the check-escaped encoders/parse_host/'
+    'unquote_string and compared with an independent reference (equality, output grammar, round trip, idempotence, fixed point).',
+    'lone surrogates outside the alphabet; compiled cyutil twin not covered', 'DESIGN.md section 5 C10')
+
+reg('C11', 'ENUM+SEQ',
+    'bounded-exhaustive enumeration of Accept headers (all sequences of <=k members of a 95-member range grammar) x candidate lists against an own RFC 9110 precedence model; depth-bounded unmerged search over handler-map mutation histories against a dict model',
+    'Every header of <=2 (thorough <=3) members x 159 candidate lists through quality/best_match/client_accepts/client_prefers on both request classes; every '
+    'history of <=3 (thorough <=4, <=5 on a sub-alphabet) of 21 mapping operations incl. copy (both objects stay observed), with a resolution battery '
+    '(9 types x 2 defaults x 3 raise modes via _resolve, get_media and resp.media) after every operation, warm and cold caches.',
+    'the resolver lru_cache is unobservable state: histories are not merged', 'DESIGN.md section 5 C11')
+
+reg('C15', 'SEQ+ENUM',
+    'explicit-state BFS (merged on the complete header/cookie stores of both stacks) over response header operation histories against a case-insensitive map + cookie jar model; full cookie attribute product; URI-helper strings',
+    'Histories of <=3 (thorough <=4) of 74 operations (set/append/delete/set_headers/typed properties/append_link/cookies/raw Set-Cookie in several casings); '
+    'after every operation get_header in 3 casings, resp.headers, the typed properties and the header list emitted to both drivers are compared; the full '
+    'product of cookie attributes (13 824 per stack) is parsed with an RFC 6265 reader and echoed back through the request API; all strings <=3 (thorough <=4) '
+    'over 7 symbols go through the URI-bearing helpers and are decoded with an independent RFC 3986 decoder.',
+    'header order is not compared; default Content-Type/forced Content-Length are C05', 'DESIGN.md section 5 C15')
+
+reg('C20', 'ENUM',
+    'full product enumeration of CORS configuration x middleware composition x stack x target x origin x request shape against a decision table applied to a baseline response',
+    'The product of 48 (thorough 126) configurations, 15 compositions, 2 stacks, 11 targets, 5-7 origins and 8-11 request shapes (5*10^5 / 2.6*10^6 cells) is '
+    'served by real apps; the response is compared with the same app\'s response with a do-nothing component in the CORS slot plus exactly the headers the '
+    'decision table grants.',
+    'a preflight whose exchange failed may keep simple grants or withdraw everything (statement ambiguous); approval headers never', 'DESIGN.md section 5 C20')
+
 PENDING = {}
 
 ALL = ['C%02d' % i for i in range(1, 21)]
